@@ -24,7 +24,7 @@ XsOf(kind) == IF kind = "frac" THEN << <<2, 1>>, <<3, 2>> >> ELSE << <<2, 1>>, <
 T(re, im, mult, base, a0, a1, a2) == [coef |-> GOfInt(re, im), mult |-> mult, base |-> base, p |-> <<a0, a1, a2>>]
 NoPole == [on |-> FALSE, at |-> 0]
 MkBody(comps) == [blank |-> FALSE, comps |-> comps, pole |-> NoPole, sigma |-> 1, shift |-> 0, scale |-> One,
-                  add |-> GZero, v |-> "n"]
+                  add |-> GZero, v |-> "n", calls |-> <<>>]
 Catalogue ==
   [ const  |-> MkBody(<< <<T(1, 0, "one", "poly", 1, 0, 0)>> >>),                                       \* 1
     lin    |-> MkBody(<< <<T(1, 0, "one", "poly", 0, 1, 0)>> >>),                                       \* n
@@ -171,7 +171,7 @@ Space ==
           tr |-> {<<"same", 0>>, <<"swap", 0>>, <<"rename", 0>>, <<"reverse", 0>>, <<"cut_explicit", 0>>, <<"cut_explicit", -1>>,
                   <<"cut_explicit", 1>>, <<"shift", 1>>, <<"shift", -2>>, <<"add", 1>>, <<"lo", 1>>, <<"hi", -1>>, <<"scale", 2>>},
           l |-> {LInt(n) : n \in -2..(L - 1)} \cup {PInf, NInf}, u |-> {LInt(n) : n \in -2..(L - 1)} \cup {PInf, NInf},
-          P |-> {Fields}, ord |-> {"asc"}, tol |-> {"default", "milli"}, cut |-> (IF L > 4 THEN {Cut, Cut + 4} ELSE {Cut}),
+          P |-> {Fields}, ord |-> {"asc"}, tol |-> (IF L > 4 THEN {"default", "milli"} ELSE {"default"}), cut |-> (IF L > 4 THEN {Cut, Cut + 4} ELSE {Cut}),
           fa |-> {"none"}, fs |-> {"none"}, fk |-> {0}, xs |-> {"frac"}]
     [] Part = "err" ->
          [sid |-> (IF L > 4 THEN {"xlin", "ivar", "vec"} ELSE {"xlin", "ivar"}), eo |-> {0, 1}, tr |-> {<<"same", 0>>, <<"shift", 1>>},
@@ -211,7 +211,7 @@ Sensible(x) ==
   /\ x.fs = "unknown_var" \/ x.fa = "unknown_var" => x.tr[1] \in {"same", "shift"}
 
 CfgOf(x) == [evenOdd |-> x.eo, cut |-> x.cut, cutFact |-> CutFact, xs |-> XsOf(x.xs), cval |-> CVal, vars |-> {"x"},
-             ivars |-> {"c"}, tol |-> Tols[x.tol]]
+             ivars |-> {"c"}, tol |-> Tols[x.tol], userfuncs |-> {}, forbidden |-> {}, required |-> {}, listing |-> "black"]
 CleanAuthor(x) == [lower |-> x.l, upper |-> x.u, body |-> Catalogue[x.sid], var |-> "n"]
 AuthorOf(x) == ApplyFault(CleanAuthor(x), x.fa, x.fk, XsOf(x.xs))
 StudentOf(x) == LET a == CleanAuthor(x)
@@ -219,7 +219,7 @@ StudentOf(x) == LET a == CleanAuthor(x)
                 IN ApplyFault(Transform(x.tr, a1, IF x.sid = "fact" THEN CutFact ELSE x.cut), x.fs, x.fk, XsOf(x.xs))
 
 VARIABLES c, io, out
-SeedOK(s) == Part # "value" \/ Stride = 1 \/ (IndexIn(ValueSidSeq, s.sid) + IndexIn(TrSeq, s.tr) + s.eo) % Stride = 0
+SeedOK(s) == Part # "value" \/ Stride = 1 \/ (5 * IndexIn(ValueSidSeq, s.sid) + 3 * IndexIn(TrSeq, s.tr) + s.eo) % Stride = 0
 Seeds == {s \in {[kind |-> "seed", sid |-> s, eo |-> e, tr |-> t, fa |-> f] : s \in Space.sid, e \in Space.eo, t \in Space.tr, f \in Space.fa} : SeedOK(s)}
 ASSUME {TrSeq[i] : i \in 1..Len(TrSeq)} = AllTr /\ Len(TrSeq) = Cardinality(AllTr)
 CasesFor(s) == {x \in [kind : {Part}, sid : {s.sid}, eo : {s.eo}, tr : {s.tr}, fa : {s.fa}, l : Space.l, u : Space.u, P : Space.P,
